@@ -1,4 +1,5 @@
 """z3 back end: translation of expr terms and the discharge portfolio."""
+import os
 import time
 from fractions import Fraction
 import z3
@@ -169,6 +170,30 @@ class Stats:
                     solver_s=round(self.solver_s, 3), by_stage=self.by_stage)
 
 
+_WD = {"pid": None, "deadline": None, "ctx": None}
+
+
+def _watchdog_loop():
+    while True:
+        time.sleep(1.0)
+        d, c = _WD["deadline"], _WD["ctx"]
+        if d is not None and c is not None and time.time() > d:
+            _WD["deadline"] = None
+            try:
+                c.interrupt()
+            except Exception:
+                pass
+
+
+def _watchdog_arm(ctx, deadline):
+    import threading
+    if _WD["pid"] != os.getpid():          # (re)start after a fork: threads do not survive it
+        _WD["pid"] = os.getpid()
+        t = threading.Thread(target=_watchdog_loop, daemon=True)
+        t.start()
+    _WD["ctx"], _WD["deadline"] = ctx, deadline
+
+
 def _check(solver_factory, formulas, timeout_ms, stats, stage):
     s = solver_factory()
     s.set("timeout", int(timeout_ms))
@@ -180,10 +205,16 @@ def _check(solver_factory, formulas, timeout_ms, stats, stage):
     for f in formulas:
         s.add(f)
     t0 = time.time()
+    # third line of defence: neither `timeout` nor `rlimit` is honoured in every z3 code path (a query inside the pivoted-QR contract ran for > 15 min), and a
+    # Python signal handler cannot interrupt a C call - ONE watchdog thread per process interrupts the context a few seconds after the deadline of the running
+    # query; the answer is then `unknown`
+    _watchdog_arm(s.ctx, time.time() + timeout_ms / 1000.0 + 5.0)
     try:
         r = s.check()
     except z3.Z3Exception:
         r = z3.unknown
+    finally:
+        _watchdog_arm(None, None)
     dt = time.time() - t0
     stats.queries += 1
     stats.solver_s += dt
